@@ -205,10 +205,12 @@ func (eval Evaluator) PartialTracesSum(ctIn *Ciphertext, offset, n int, opOut *C
 	}
 
 	if n == 1 {
+		// Plain copy, in the domain of ctIn: no conversion back to be done.
 		if ctIn != opOut {
 			opOut.Value[0].CopyLvl(levelQ, ctIn.Value[0])
 			opOut.Value[1].CopyLvl(levelQ, ctIn.Value[1])
 		}
+		return
 	} else {
 
 		// BuffQP[0:2] are used by AutomorphismHoistedLazy
@@ -368,7 +370,9 @@ func (eval Evaluator) InnerFunction(ctIn *Ciphertext, batchSize, n int, f func(a
 	}
 
 	if n == 1 {
+		// Plain copy, in the domain of ctIn: no conversion back to be done.
 		opOut.Copy(ctIn)
+		return
 	} else {
 
 		// Accumulator mod Q
